@@ -255,3 +255,305 @@ Qed.
 Theorem recorded_is_stored st entry t1 :
   assoc_get (s_updates (set_updates st (assoc_set (s_updates st) entry t1))) entry = Some t1.
 Proof. apply assoc_get_set. Qed.
+
+(* ---- without UpdateScripts nothing is ever recorded *)
+
+Definition U (o : outcome) := s_updates (outcome_state o).
+
+Ltac dm := match goal with |- context [match ?x with _ => _ end] => destruct x end.
+Ltac crush := repeat (simpl; try reflexivity; dm); simpl; try reflexivity.
+
+Lemma mark_racy_updates st b : s_updates (mark_racy st b) = s_updates st.
+Proof. destruct b; reflexivity. Qed.
+
+Lemma upd_cd args st : U (cmd_cd args st) = s_updates st.
+Proof. unfold U, cmd_cd. crush. Qed.
+Lemma upd_chmod args st : U (cmd_chmod args st) = s_updates st.
+Proof. unfold U, cmd_chmod. crush. Qed.
+Lemma upd_cmp envs neg args st : U (cmd_cmp false envs neg args st) = s_updates st.
+Proof. unfold U, cmd_cmp. crush. Qed.
+Lemma upd_cp_loop dst dd srcs st : U (cp_loop dst dd srcs st) = s_updates st.
+Proof.
+  revert st. induction srcs as [|a r IH]; intros st; simpl; [reflexivity|].
+  destruct (cp_source st a) as [[[src data] mode]|]; [|reflexivity].
+  destruct (write_file _ _ _ _); [|reflexivity]. rewrite IH. reflexivity.
+Qed.
+Lemma upd_cp args st : U (cmd_cp args st) = s_updates st.
+Proof.
+  unfold cmd_cp. destruct args as [|a [|b r]]; try reflexivity.
+  destruct (_ && _); [reflexivity|]. apply upd_cp_loop.
+Qed.
+Lemma upd_env args st : U (cmd_env args st) = s_updates st.
+Proof. reflexivity. Qed.
+Lemma upd_exists neg args st : U (cmd_exists neg args st) = s_updates st.
+Proof. unfold U, cmd_exists. crush. Qed.
+Lemma upd_mkdir_loop args st : U (mkdir_loop args st) = s_updates st.
+Proof.
+  revert st. induction args as [|a r IH]; intros st; simpl; [reflexivity|].
+  destruct (mkdir_all _ _ _); [|reflexivity]. rewrite IH. reflexivity.
+Qed.
+Lemma upd_rm_loop args st : U (rm_loop args st) = s_updates st.
+Proof.
+  revert st. induction args as [|a r IH]; intros st; simpl; [reflexivity|].
+  destruct (remove_all _ _); [|reflexivity]. rewrite IH. reflexivity.
+Qed.
+Lemma upd_unquote_loop args st : U (unquote_loop args st) = s_updates st.
+Proof.
+  revert st. induction args as [|a r IH]; intros st; simpl; [reflexivity|].
+  destruct (read_file _ _); [|reflexivity]. destruct (unquote _); [|reflexivity].
+  destruct (write_file _ _ _ _); [|reflexivity]. rewrite IH. reflexivity.
+Qed.
+Lemma upd_unix2dos_loop args st : U (unix2dos_loop args st) = s_updates st.
+Proof.
+  revert st. induction args as [|a r IH]; intros st; simpl; [reflexivity|].
+  destruct (read_file _ _); [|reflexivity].
+  destruct (write_file _ _ _ _); [|reflexivity]. rewrite IH. reflexivity.
+Qed.
+Lemma upd_mv args st : U (cmd_mv args st) = s_updates st.
+Proof. unfold U, cmd_mv. crush. Qed.
+Lemma upd_stdin args st : U (cmd_stdin args st) = s_updates st.
+Proof. unfold U, cmd_stdin. crush. Qed.
+Lemma upd_stop args st : U (cmd_stop args st) = s_updates st.
+Proof. unfold U, cmd_stop. crush. Qed.
+Lemma upd_symlink args st : U (cmd_symlink args st) = s_updates st.
+Proof. unfold U, cmd_symlink. crush. Qed.
+Lemma upd_match neg args text g st : U (script_match neg args text g st) = s_updates st.
+Proof. unfold U, script_match. crush. Qed.
+Lemma upd_wait_all chk st : U (wait_all chk st) = s_updates st.
+Proof.
+  unfold U, wait_all. destruct (wait_loop chk (s_bg st)) as [[[[bgs o] e] bad] racy].
+  destruct bad; simpl; rewrite mark_racy_updates; reflexivity.
+Qed.
+Lemma upd_wait_one n st : U (wait_one n st) = s_updates st.
+Proof.
+  unfold U, wait_one. destruct (find_bg _ _); [|reflexivity].
+  destruct (reap _) as [p racy]. destruct (status_wrong _); simpl; rewrite mark_racy_updates; reflexivity.
+Qed.
+Lemma upd_wait args st : U (cmd_wait args st) = s_updates st.
+Proof.
+  unfold cmd_wait. destruct args as [|a [|b r]]; [apply upd_wait_all|apply upd_wait_one|reflexivity].
+Qed.
+Lemma upd_skip args st : U (cmd_skip args st) = s_updates st.
+Proof.
+  unfold cmd_skip. destruct args as [|a [|b r]]; try reflexivity;
+    (pose proof (upd_wait_all true (interrupt_all st)) as H; unfold U in *;
+     destruct (wait_all true (interrupt_all st)); simpl in *; exact H).
+Qed.
+Lemma upd_kill args st : U (cmd_kill args st) = s_updates st.
+Proof.
+  unfold U, cmd_kill. destruct (kill_args args) as [[|b r]|]; [| |reflexivity].
+  - destruct (kill_loop _) as [[bgs err] racy]. destruct err; simpl; rewrite mark_racy_updates; reflexivity.
+  - destruct (find_bg _ _); [|reflexivity]. destruct (signal _) as [[p err] racy].
+    destruct err; simpl; rewrite mark_racy_updates; reflexivity.
+Qed.
+Lemma upd_exec cfg neg args st : U (cmd_exec cfg neg args st) = s_updates st.
+Proof.
+  unfold U, cmd_exec. destruct args as [|prog rest]; [reflexivity|].
+  destruct (bg_spec _) as [name|].
+  - destruct rest; [destruct name; reflexivity|].
+    destruct (find_bg _ _); [reflexivity|].
+    destruct (can_start _ _ _); [simpl; rewrite mark_racy_updates; reflexivity|].
+    destruct neg; reflexivity.
+  - destruct (can_start _ _ _).
+    + destruct (Bool.eqb _ _); simpl; rewrite mark_racy_updates; reflexivity.
+    + destruct neg; reflexivity.
+Qed.
+Lemma upd_custom cfg k neg args st : U (cmd_custom cfg k neg args st) = s_updates st.
+Proof. unfold U, cmd_custom. crush. Qed.
+
+Lemma upd_builtin cfg name neg args st :
+  c_update cfg = false -> U (builtin_sem cfg name neg args st) = s_updates st.
+Proof.
+  intros Hu. unfold builtin_sem. rewrite Hu.
+  destruct (neg && _); [reflexivity|].
+  repeat (match goal with |- context [if bytes_eqb name ?l then _ else _] => destruct (bytes_eqb name l) end;
+          [first [apply upd_cd|apply upd_chmod|apply upd_cmp|apply upd_cp|apply upd_env|apply upd_exec
+                 |apply upd_exists|apply upd_match|apply upd_kill|apply upd_mv|apply upd_skip|apply upd_stdin
+                 |apply upd_stop|apply upd_symlink|apply upd_unquote_loop|apply upd_wait
+                 |(unfold cmd_mkdir; destruct args; [reflexivity|apply upd_mkdir_loop])
+                 |(unfold cmd_rm; destruct args; [reflexivity|apply upd_rm_loop])
+                 |(unfold cmd_unix2dos; destruct args; [reflexivity|apply upd_unix2dos_loop])]|]).
+  reflexivity.
+Qed.
+
+Lemma upd_cmd_sem cfg c neg args st :
+  c_update cfg = false -> U (cmd_sem cfg c neg args st) = s_updates st.
+Proof.
+  intros Hu. destruct c as [name|name|k]; cbn [cmd_sem].
+  - apply upd_builtin. exact Hu.
+  - destruct (c_explicit_exec cfg); [reflexivity|apply upd_exec].
+  - apply upd_custom.
+Qed.
+
+Lemma upd_run_guards cfg st words :
+  c_update cfg = false -> U (run_guards cfg st words) = s_updates st.
+Proof.
+  intros Hu. induction words as [|w rest IH]; simpl; [reflexivity|].
+  destruct (guard_of w) as [[want c]|].
+  - destruct rest as [|r0 rest']; [reflexivity|].
+    destruct (cond_eval cfg st c) as [b|]; [|reflexivity].
+    destruct (Bool.eqb b want); [exact IH|reflexivity].
+  - unfold run_neg, run_cmd.
+    destruct (bytes_eqb w bang).
+    + destruct rest as [|n a]; [reflexivity|]. destruct (lookup_cmd cfg n); [apply upd_cmd_sem; exact Hu|reflexivity].
+    + destruct (lookup_cmd cfg w); [apply upd_cmd_sem; exact Hu|reflexivity].
+Qed.
+
+Lemma upd_run_line cfg st line :
+  c_update cfg = false -> U (run_line cfg st line) = s_updates st.
+Proof.
+  intros Hu. unfold run_line. destruct (tokenise _ _) as [[|w ws]|]; try reflexivity.
+  apply upd_run_guards. exact Hu.
+Qed.
+
+Lemma upd_end_bg st : s_updates (end_bg st) = s_updates st.
+Proof. unfold end_bg. exact (upd_wait_all false (interrupt_all st)). Qed.
+
+Lemma upd_run_lines cfg ls n f st :
+  c_update cfg = false -> s_updates (snd (fst (run_lines cfg ls n f st))) = s_updates st.
+Proof.
+  intros Hu. revert n f st. induction ls as [|l ls IH]; intros n f st; simpl.
+  - apply upd_end_bg.
+  - destruct (is_comment l); [apply IH|].
+    pose proof (upd_run_line cfg (at_line (S n) f st) l Hu) as Hl. unfold U in Hl.
+    destruct (run_line cfg (at_line (S n) f st) l) as [s|s|s]; simpl in Hl.
+    + destruct (s_stopped s); simpl; [rewrite upd_end_bg|rewrite IH]; exact Hl.
+    + destruct (c_continue cfg); [|exact Hl].
+      destruct (s_stopped s); simpl; [rewrite upd_end_bg; exact Hl|].
+      specialize (IH (S n) true s). destruct (run_lines cfg ls (S n) true s) as [[k s'] fl]. simpl in *.
+      rewrite IH. exact Hl.
+    + exact Hl.
+Qed.
+
+Lemma upd_unpack u fs st : s_updates (fst (unpack u fs st)) = s_updates st.
+Proof.
+  revert st. induction fs as [|[n d] r IH]; intros st; simpl; [reflexivity|].
+  destruct (mkdir_all _ _ _); [|reflexivity].
+  destruct u.
+  - destruct (write_file_excl _ _ _ _); [rewrite IH|]; reflexivity.
+  - destruct (write_file _ _ _ _); [rewrite IH|]; reflexivity.
+Qed.
+
+Lemma upd_run_archive cfg work env a :
+  c_update cfg = false -> s_updates (r_final (run_archive cfg work env a)) = [].
+Proof.
+  intros Hu. unfold run_archive.
+  assert (s_updates (fst (setup cfg work env a)) = []) as Hs.
+  { unfold setup. destruct (mkdir_all _ _ _); [|reflexivity]. rewrite upd_unpack. reflexivity. }
+  destruct (setup cfg work env a) as [st ok]. simpl in Hs. destruct ok; [|exact Hs].
+  unfold run_script.
+  pose proof (upd_run_lines cfg (script_lines (comment a)) 0 false st Hu) as H.
+  destruct (run_lines cfg (script_lines (comment a)) 0 false st) as [[k s] fl]. simpl in *. congruence.
+Qed.
+
+(* without UpdateScripts the script file is never written *)
+Theorem no_flag_no_write cfg work env file :
+  c_update cfg = false -> f_change (run_file_full cfg work env file) = Untouched.
+Proof.
+  intros Hu. unfold run_file_full. simpl. rewrite (upd_run_archive cfg work env (parse file) Hu). reflexivity.
+Qed.
+
+(* ---- the re-run fix-point *)
+
+(* The unrestricted reading of "re-running the updated script without UpdateScripts passes
+   whenever the content is representable": for every script, if the update run passes, rewrites
+   the file, and every recorded content is empty or newline-terminated and needs no quoting,
+   then the second run of the rewritten file (flag off) passes and leaves the file alone. *)
+Definition with_update (cfg : config) (u : bool) : config :=
+  {| c_continue := c_continue cfg; c_explicit_exec := c_explicit_exec cfg; c_unique := c_unique cfg;
+     c_update := u; c_host_conds := c_host_conds cfg; c_custom_cond := c_custom_cond cfg;
+     c_cmds := c_cmds cfg; c_main_cmds := c_main_cmds cfg; c_helper := c_helper cfg;
+     c_helper_dir := c_helper_dir cfg; c_watch := c_watch cfg |}.
+
+Definition representable (c : bytes) : Prop := (c = [] \/ last_byte c = Some NL) /\ needs_quote c = false.
+
+Definition rerun_fixpoint_unrestricted_statement : Prop :=
+  forall cfg work env file file',
+    let r := run_file_full (with_update cfg true) work env file in
+    r_verdict (f_run r) = Pass ->
+    f_change r = Rewritten file' ->
+    (forall n c, assoc_get (s_updates (r_final (f_run r))) n = Some c -> representable c) ->
+    let r2 := run_file_full (with_update cfg false) work env file' in
+    r_verdict (f_run r2) = Pass /\ f_change r2 = Untouched.
+
+Module Examples.
+Import String.
+Local Open Scope string_scope.
+Local Open Scope list_scope.
+Definition b (s : string) : bytes := list_byte_of_string s.
+Definition nl : string := String (Ascii.ascii_of_nat 10) EmptyString.
+Definition text (ls : list string) : bytes := List.concat (List.map (fun l => b (String.append l nl)) ls).
+
+Definition cfg0 : config :=
+  {| c_continue := false; c_explicit_exec := false; c_unique := false; c_update := true;
+     c_host_conds := []; c_custom_cond := None; c_cmds := []; c_main_cmds := [];
+     c_helper := b "tshelper"; c_helper_dir := b "/h"; c_watch := [] |}.
+Definition env0 : list (bytes * bytes) := [(b "WORK", b "/w"); (b "PATH", b "/h")].
+Definition work : bytes := b "/w".
+Definition gname : bytes := b "g.txt".
+
+(* one golden entry updated, one untouched, one needing quotation *)
+Definition f1 := text ["exec tshelper echo new"; "cmp stdout g.txt"; "exec tshelper lines '-- x --'"; "cmp stdout q.txt";
+                       "-- g.txt --"; "old"; "-- keep.txt --"; "kept"; "-- q.txt --"; "plain"].
+Example ex_update :
+  let r := run_file_full cfg0 (b "/w") env0 f1 in
+  r_verdict (f_run r) = Pass
+  /\ f_change r = Rewritten (text ["exec tshelper echo new"; "cmp stdout g.txt"; "exec tshelper lines '-- x --'"; "cmp stdout q.txt";
+                                   "-- g.txt --"; "new"; "-- keep.txt --"; "kept"; "-- q.txt --"; ">-- x --"]).
+Proof. vm_compute. split; reflexivity. Qed.
+
+(* the hypotheses of update_reparses are satisfiable *)
+Example ex_reparses_hyp :
+  wf_archive (parse f1) = true
+  /\ exists a', apply_updates (parse f1) [(b "g.txt", text ["new"])] = Some a' /\ parse (format a') = a'.
+Proof.
+  split; [vm_compute; reflexivity|].
+  eexists. split; [vm_compute; reflexivity|]. vm_compute. reflexivity.
+Qed.
+
+(* negated cmp, cmpenv and a cmp against a file outside the archive never write *)
+Definition f2 := text ["exec tshelper echo new"; "! cmp stdout g.txt"; "-- g.txt --"; "old"].
+Definition f3 := text ["exec tshelper echo new"; "cmpenv stdout g.txt"; "-- g.txt --"; "old"].
+Definition f4 := text ["exec tshelper echo new"; "cp g.txt out.txt"; "cmp stdout out.txt"; "-- g.txt --"; "old"].
+Example ex_no_update :
+  f_change (run_file_full cfg0 (b "/w") env0 f2) = Untouched
+  /\ r_verdict (f_run (run_file_full cfg0 (b "/w") env0 f2)) = Pass
+  /\ f_change (run_file_full cfg0 (b "/w") env0 f3) = Untouched
+  /\ r_verdict (f_run (run_file_full cfg0 (b "/w") env0 f3)) = Fail 2
+  /\ f_change (run_file_full cfg0 (b "/w") env0 f4) = Untouched
+  /\ r_verdict (f_run (run_file_full cfg0 (b "/w") env0 f4)) = Fail 3.
+Proof. vm_compute. repeat split; reflexivity. Qed.
+
+(* a content that needs quoting but has no final newline cannot be stored: nothing is written *)
+Definition f5 := text ["exec tshelper print '-- x --'"; "cmp stdout g.txt"; "-- g.txt --"; "old"].
+Example ex_unquotable : f_change (run_file_full cfg0 (b "/w") env0 f5) = UpdateError.
+Proof. vm_compute. reflexivity. Qed.
+
+(* the witness against the unrestricted fix-point: one entry compared with two outputs *)
+Definition f6 := text ["exec tshelper echo one"; "cmp stdout g.txt"; "exec tshelper echo two"; "cmp stdout g.txt";
+                       "-- g.txt --"; "zero"].
+Definition f6' := text ["exec tshelper echo one"; "cmp stdout g.txt"; "exec tshelper echo two"; "cmp stdout g.txt";
+                        "-- g.txt --"; "two"].
+Example ex_f6_first :
+  let r := run_file_full cfg0 work env0 f6 in
+  r_verdict (f_run r) = Pass /\ f_change r = Rewritten f6'
+  /\ s_updates (r_final (f_run r)) = [(gname, text ["two"])].
+Proof. vm_compute. repeat split; reflexivity. Qed.
+Example ex_f6_second :
+  r_verdict (f_run (run_file_full (with_update cfg0 false) work env0 f6')) = Fail 2.
+Proof. vm_compute. reflexivity. Qed.
+End Examples.
+
+Theorem rerun_fixpoint_unrestricted_refuted : ~ rerun_fixpoint_unrestricted_statement.
+Proof.
+  intros H.
+  specialize (H Examples.cfg0 Examples.work Examples.env0 Examples.f6 Examples.f6').
+  assert (with_update Examples.cfg0 true = Examples.cfg0) as E by reflexivity. rewrite E in H.
+  destruct Examples.ex_f6_first as [Hv [Hc Hu]].
+  specialize (H Hv Hc).
+  assert (forall n c, assoc_get (s_updates (r_final (f_run (run_file_full Examples.cfg0 Examples.work Examples.env0 Examples.f6)))) n = Some c -> representable c) as Hr.
+  { rewrite Hu. intros n c. simpl.
+    destruct (bytes_eqb n Examples.gname); [|discriminate].
+    intros Hc'. inversion Hc'; subst. vm_compute. repeat split; auto. }
+  destruct (H Hr) as [Hp _]. rewrite Examples.ex_f6_second in Hp. discriminate.
+Qed.
